@@ -12,7 +12,7 @@ from vcheck.checks import shadow_common as sc
 from vcheck.checks.C13 import rand_cube, spell
 from vcheck.gen import grammar
 from vcheck.monitor import taps
-from vcheck.oracle import bits, reader
+from vcheck.oracle import bits, names, reader
 
 PROPERTY = "C02"
 LEVEL = "translation_validation"
@@ -402,6 +402,35 @@ def gen_case(rng):
         for idx in range(n):
             if numbered:
                 seq += 10
+            if lines and rng.random() < 0.12:
+                # repeats: a separator remark used twice, an exact duplicate of an earlier entry, or an entry spelled like
+                # one single-port piece of an earlier multi-port entry (conversion must keep every one of them)
+                src_idx = rng.randrange(len(lines))
+                toks = lines[src_idx].split()
+                if toks[0].isdigit():
+                    toks = toks[1:]
+                if toks[0] == "remark" and heading and " ".join(toks[1:]).startswith(heading.strip()):
+                    toks = ["remark", "----"]  # headings are merged by group_by: repeat a plain separator instead
+                elif toks[0] != "remark" and " eq " in " ".join(toks) and rng.random() < 0.6:
+                    out, k = [], 0
+                    while k < len(toks):
+                        out.append(toks[k])
+                        if toks[k] == "eq":
+                            k += 1
+                            vals = []
+                            while k < len(toks) and (toks[k].isdigit() or names.port_number("tcp", toks[k]) is not None
+                                                     or names.port_number("udp", toks[k]) is not None) \
+                                    and toks[k] not in names.ADDR_WORDS and toks[k] not in names.LOG_WORDS:
+                                vals.append(toks[k])
+                                k += 1
+                            out.append(rng.choice(vals) if vals else "1")
+                            continue
+                        k += 1
+                    toks = out
+                lines.append((f"{seq} " if seq else "") + " ".join(toks))
+                if str(src_idx) in members and toks[0] != "remark":
+                    members[str(idx)] = dict(members[str(src_idx)])
+                continue
             if rng.random() < 0.25:
                 lines.append(grammar.gen_remark(rng, seq=seq, heading=heading if heading and rng.random() < 0.6 else None,
                                                 uniq=f"u{idx}")["text"])
